@@ -86,6 +86,13 @@ def run(tier):
         for b in defs:
             ta = defs[a] % 1 if "%d" in defs[a] else defs[a]; tb = defs[b] % 2 if "%d" in defs[b] else defs[b]
             cases.append(("sc%d" % kc, "//// module a.pn\n%s//// module b.pn\n%s" % (ta, tb), "symbol-clash")); kc += 1
+    # every stored witness of a defect found so far (repaired or listed), of this and of the other properties
+    import glob
+    for fpath in sorted(glob.glob(os.path.join(C.VERIF, "findings", "*.pn"))):
+        text = open(fpath, newline="").read()
+        if os.path.basename(fpath)[:3] in ("C14", "C15", "C16"): continue      # (witnesses for the second-generation front end)
+        if not text.startswith("//cli") and not text.startswith("//wasm"):
+            cases.append(("fw:" + os.path.basename(fpath), text, "stored-witnesses"))
     # deep nesting within the stated bound (depth <= 256)
     for d in (32, 128, 256):
         cases.append(("n%da" % d, "fn main() -> i32\n{\n\treturn: " + "(" * d + "1" + ")" * d + "\n}\n", "nesting"))
